@@ -1,3 +1,7 @@
+"""Standard-model interpretations of the theory symbols added by ttvc/mx_rest.py (four sections, see there); INTERP_EXT at the end collects them."""
+# ==================================================================================================
+# SECTION func_full (dense Chebyshev routines)
+# ==================================================================================================
 """Standard-model interpretations of the theory symbols added by ttvc/mx_rest.py (groups 'rest_dense', 'rest_colsel', 'rest_corder',
 'rest_cblk', ...).  rest_fftre is interpreted by np.fft.fft itself and dct1 (lemmas/spotcheck_ext_func.py) by scipy.fftpack.dct, so the
 "FFT of the even extension = DCT-I" axiom compares the two libraries on every run.  Instances outside the domain of an operation raise
@@ -45,7 +49,7 @@ def _ff_col0(A):
     return np.array([float(A[k, 0]) if k < A.shape[0] else 0.0 for k in range(8)])
 
 
-INTERP_EXT = {
+INTERP_EXT_ff = {
     'rest_sw01': lambda G: np.swapaxes(G, 0, 1), 'rest_sw02': lambda G: np.swapaxes(G, 0, 2), 'rest_sl0': _ff_sl0,
     'rest_revrows': _ff_revrows, 'rest_fftre': lambda A: np.fft.fft(A, axis=0).real, 'rest_rowset': _ff_rowset,
     'rest_lift': lambda A: A[None, :, :], 'rest_colm': _ff_colm, 'rest_col0': _ff_col0,
@@ -81,7 +85,7 @@ def _ff_vfoldC(v, n):
     return v.reshape(n, -1)
 
 
-INTERP_EXT.update({
+INTERP_EXT_ff.update({
     'rest_erows': lambda A: A[::2, :], 'rest_rowdiv': _ff_rowdiv, 'rest_colsum': lambda A: np.sum(A, axis=0)[None, :], 'rest_psum': _ff_psum,
     'rest_ccsum': _ff_ccsum, 'rest_unfC': lambda G: G.reshape(G.shape[0], -1), 'rest_cblk': _ff_cblk, 'rest_vfoldC': _ff_vfoldC,
 })
@@ -92,4 +96,196 @@ def _ff_tfib(Xs, s, k):
     return np.array([cheb(l, float(Xs[int(s)][int(k)])) for l in range(8)])
 
 
-INTERP_EXT.update({'rest_tfib': _ff_tfib})
+INTERP_EXT_ff.update({'rest_tfib': _ff_tfib})
+
+
+# ==================================================================================================
+# SECTION anova_func
+# ==================================================================================================
+"""Standard-model interpretations of the theory symbols added by ttvc/mx_rest.py (groups 'rest_af_mv', 'rest_af_hsum', 'rest_af_chebmat').
+rest_af_mv is interpreted by NumPy's own `A @ v`, rest_af_mvsum / rest_af_hsum by plain Python sums: the defining sum of the model-table entry
+"2-D @ 1-D" is thereby compared with the library on every run.  Vectors are dicts 0..8 (the sampler of lemmas/spotcheck.py); the list of vectors
+(sort Array(Int, Array(Int, Real))) is sampled by the wrapper that lemmas/spotcheck_ext_anova.py installs.  Instances outside the domain of an
+operation raise IndexError (= undefined).  rest_af_lsqv / rest_af_cvec / rest_af_clen occur in no axiom and need no interpretation."""
+import numpy as np
+
+
+class _af_Undef(IndexError):
+    pass
+
+
+def _af_need(ok, what):
+    if not ok:
+        raise _af_Undef(what)
+
+
+def _af_mv(A, v):
+    _af_need(A.shape[1] <= 8, 'vector length')
+    out = A @ np.array([float(v[t]) for t in range(A.shape[1])])
+    return {i: (float(out[i]) if i < A.shape[0] else 0.0) for i in range(9)}
+
+
+def _af_mvsum(A, v, i, k):
+    i, k = int(i), int(k)
+    _af_need(0 <= i < A.shape[0] and 0 <= k <= A.shape[1], 'partial row sum out of range')
+    return float(sum(A[i, t] * float(v[t]) for t in range(k)))
+
+
+def _af_hsum(S, k):
+    k = int(k)
+    _af_need(0 <= k <= 8, 'hsum length')
+    return float(sum(S[t][0] for t in range(k)))
+
+
+def _af_cheb(k, x):
+    t0, t1 = 1.0, float(x)
+    if k == 0:
+        return t0
+    for _ in range(k - 1):
+        t0, t1 = t1, 2 * float(x) * t1 - t0
+    return t1
+
+
+def _af_chebmat(x, L, m):
+    L, m = int(L), int(m)
+    _af_need(0 <= L <= 8 and 0 <= m <= 8, 'basis matrix size')
+    return np.array([[_af_cheb(i, x[j]) for j in range(L)] for i in range(m)], dtype=float).reshape(m, L)
+
+
+INTERP_EXT_af = {'rest_af_chebmat': _af_chebmat, 'rest_af_mv': _af_mv, 'rest_af_mvsum': _af_mvsum, 'rest_af_hsum': _af_hsum}
+
+
+# ==================================================================================================
+# SECTION ANOVA.build_2
+# ==================================================================================================
+"""Standard-model interpretations of the theory symbols added by ttvc/mx_rest.py (loaded by lemmas/spotcheck.load_extensions).
+
+Symbols: rest_b2_ccnt2 / csum2 / cmean2 (count, sum and mean of y over the samples that carry a pair of values), rest_b2_tri / pos / e1 / e2
+(the enumeration (0,1), (0,2), .., (0,d-1), (1,2), .. of the pairs of modes: pairs before a first mode, position of a pair, the pair
+at a position - e1 / e2 are computed by LISTING the pairs, independently of the formula behind pos).
+The generic sampler draws every integer array as the constant 0; the axioms of the groups of mx_rest are therefore checked with random
+(not constant) integer columns: `check_axiom` of the running spot-check module is wrapped for exactly these axioms (same pattern as
+lemmas/spotcheck_ext_anova.py; every other axiom falls through to the previous function)."""
+import sys
+import z3
+from ttvc import theory as T
+from ttvc import mx_rest as XB2
+
+b2_NMAX = 8
+
+
+def b2_sc():
+    return [m for n, m in list(sys.modules.items()) if n in ('__main__', 'lemmas.spotcheck') and hasattr(m, 'check_axiom') and hasattr(m, 'INTERP')]
+
+
+def b2_undefined(what):
+    for m in b2_sc():
+        raise m.Undefined(what)
+    raise ValueError(what)
+
+
+def b2_rng(k, what):
+    k = int(k)
+    if not 0 <= k <= b2_NMAX:
+        b2_undefined(what)
+    return k
+
+
+def b2_hits(c1, x1, c2, x2, n):
+    return [s for s in range(b2_rng(n, 'number of samples')) if int(c1[s]) == int(x1) and int(c2[s]) == int(x2)]
+
+
+def b2_i_ccnt2(c1, x1, c2, x2, n):
+    return len(b2_hits(c1, x1, c2, x2, n))
+
+
+def b2_i_csum2(y, c1, x1, c2, x2, n):
+    return float(sum(y[s] for s in b2_hits(c1, x1, c2, x2, n)))
+
+
+def b2_i_cmean2(y, c1, x1, c2, x2, n):
+    h = b2_hits(c1, x1, c2, x2, n)
+    if not h:
+        b2_undefined('mean of an empty selection')
+    return float(sum(y[s] for s in h)) / len(h)
+
+
+def b2_i_tri(d, a):
+    return sum(int(d) - 1 - t for t in range(b2_rng(a, 'first mode')))
+
+
+def b2_i_pos(d, a, b):
+    return b2_i_tri(d, a) + int(b) - int(a) - 1
+
+
+def b2_pairs(d):
+    d = b2_rng(d, 'number of modes')
+    return [(a, b) for a in range(d) for b in range(a + 1, d)]
+
+
+def b2_i_e(which):
+    def f(d, m):
+        prs, m = b2_pairs(d), int(m)
+        if not 0 <= m < len(prs):
+            b2_undefined('position outside the list of pairs')
+        return prs[m][which]
+    return f
+
+
+INTERP_EXT_b2 = {'rest_b2_ccnt2': b2_i_ccnt2, 'rest_b2_csum2': b2_i_csum2, 'rest_b2_cmean2': b2_i_cmean2, 'rest_b2_tri': b2_i_tri, 'rest_b2_pos': b2_i_pos,
+              'rest_b2_e1': b2_i_e(0), 'rest_b2_e2': b2_i_e(1)}
+
+
+def b2_random_ints(orig, sort, rng_):
+    if sort == XB2.b2_IA:
+        return {k: int(rng_.integers(0, 3)) for k in range(b2_NMAX + 1)}
+    return orig(sort, rng_)
+
+
+def b2_wrap_check(mod):
+    orig = mod.check_axiom
+    if getattr(orig, '_mx_rest', False):
+        return
+    mine = {ax.get_id() for g in ('rest_b2_csum2', 'rest_b2_cmean2', 'rest_b2_sym') for ax in T.GROUPS[g]}
+
+    def check_axiom(ax, rng, tries=400):
+        if ax.get_id() in mine:
+            keep = mod.sample
+            mod.sample = lambda sort, rng_: b2_random_ints(keep, sort, rng_)
+            try:
+                return orig(ax, rng, tries * 4)
+            finally:
+                mod.sample = keep
+        return orig(ax, rng, tries)
+
+    check_axiom._mx_rest = True
+    for a in ('_mx_anova',):
+        if getattr(orig, a, False):
+            setattr(check_axiom, a, True)
+    mod.check_axiom = check_axiom
+
+
+for _b2_m in b2_sc():
+    b2_wrap_check(_b2_m)
+
+
+# ==================================================================================================
+# SECTION sample_rand_poi / cdf_confidence / cross_act
+# ==================================================================================================
+"""Standard-model interpretations of the theory symbols added by ttvc/mx_rest.py (group 'rest_sp_ln')."""
+import numpy as np
+
+
+def sp_ln(x):
+    """np.log on its domain; outside (x <= 0) the symbol is an unconstrained total function (every axiom has the premise x > 0)"""
+    return float(np.log(float(x))) if x > 0 else 0.0
+
+
+INTERP_EXT_sp = {
+    'rest_sp_ln': sp_ln,
+}
+
+
+INTERP_EXT = {}
+for _d in (INTERP_EXT_ff, INTERP_EXT_af, INTERP_EXT_b2, INTERP_EXT_sp):
+    INTERP_EXT.update(_d)
